@@ -55,7 +55,8 @@ where
     }
 }
 pub const LAYERS: &[&str] = &["bulkhead", "circuitbreaker", "retry", "ratelimiter", "timelimiter", "cache", "fallback", "hedge", "chaos"];
-fn build(name: &str, inner: Inner, l: &L) -> Box<dyn DynSvc> {
+/// early = true: the listeners are registered first and every other option afterwards (a builder keeps them)
+fn build(name: &str, inner: Inner, l: &L, early: bool) -> Box<dyn DynSvc> {
     let ms = Duration::from_millis;
     macro_rules! three {
         ($b:expr, $m:ident, |$($a:ident),*|) => {{
@@ -66,6 +67,59 @@ fn build(name: &str, inner: Inner, l: &L) -> Box<dyn DynSvc> {
             }
             b
         }};
+    }
+    if early {
+        return match name {
+            "bulkhead" => {
+                let b = three!(tower_resilience_bulkhead::BulkheadLayer::builder(), on_call_permitted, |a|);
+                let b = three!(b, on_call_finished, |a|);
+                let b = three!(b, on_call_failed, |a|);
+                Box::new(W(b.max_wait_duration(ms(3)).max_concurrent_calls(4).name("late").build().layer(inner)))
+            }
+            "circuitbreaker" => {
+                let b = three!(tower_resilience_circuitbreaker::CircuitBreakerLayer::builder(), on_call_permitted, |a|);
+                let b = three!(b, on_success, |a|);
+                let b = three!(b, on_failure, |a|);
+                let b = b.failure_rate_threshold(0.5).sliding_window_size(100).name("late");
+                Box::new(W(b.failure_classifier(|r: &Result<Resp, IErr>| r.is_err()).build().layer_fn(inner)))
+            }
+            "retry" => {
+                let b = three!(tower_resilience_retry::RetryLayer::<Req, IErr>::builder(), on_retry, |a, b|);
+                let b = three!(b, on_success, |a|);
+                let b = three!(b, on_error, |a|);
+                Box::new(W(b.max_attempts(2).backoff(tower_resilience_retry::FixedInterval::new(ms(1))).name("late").build().layer(inner)))
+            }
+            "ratelimiter" => {
+                let b = three!(tower_resilience_ratelimiter::RateLimiterLayer::builder(), on_permit_acquired, |a|);
+                Box::new(W(b.limit_for_period(100).refresh_period(ms(1000)).timeout_duration(ms(0)).name("late").build().layer(inner)))
+            }
+            "timelimiter" => {
+                let b = three!(tower_resilience_timelimiter::TimeLimiterLayer::builder(), on_success, |a|);
+                let b = three!(b, on_error, |a|);
+                Box::new(W(b.cancel_running_future(true).name("late").timeout_duration(ms(100)).build().layer(inner)))
+            }
+            "cache" => {
+                let b = three!(tower_resilience_cache::CacheLayer::<Req, u32>::builder(), on_hit, | |);
+                let b = three!(b, on_miss, | |);
+                Box::new(W(b.max_size(4).name("late").key_extractor(|r: &Req| r.key).build().layer(inner)))
+            }
+            "fallback" => {
+                let b = three!(tower_resilience_fallback::FallbackLayer::<Req, Resp, IErr>::builder(), on_event, |a|);
+                Box::new(W(b.name("late").value(Resp { serial: 7000, req: 0 }).build().layer(inner)))
+            }
+            "hedge" => {
+                let mut b = tower_resilience_hedge::HedgeLayer::builder();
+                for i in 0..3 {
+                    let l2 = l.clone();
+                    b = b.on_event(tower_resilience_core::events::FnListener::new(move |_e: &tower_resilience_hedge::HedgeEvent| l2.hit(i)));
+                }
+                Box::new(W(b.name("late").max_hedged_attempts(2).delay(ms(5)).build().layer(inner)))
+            }
+            _ => {
+                let b = three!(tower_resilience_chaos::ChaosLayer::builder(), on_passed_through, | |);
+                Box::new(W(b.name("late").error_rate(0.0).error_fn(|_r: &Req| IErr { code: 99, serial: 0 }).latency_rate(0.0).seed(1).build().layer(inner)))
+            }
+        };
     }
     match name {
         "bulkhead" => {
@@ -119,11 +173,11 @@ fn build(name: &str, inner: Inner, l: &L) -> Box<dyn DynSvc> {
     }
 }
 /// fixed scenario: requests ok, err, ok, (same key as the first: cache hit), err
-async fn scenario(name: &str, panics: [bool; 3]) -> (Vec<u64>, Vec<String>) {
+async fn scenario(name: &str, panics: [bool; 3], early: bool) -> (Vec<u64>, Vec<String>) {
     let l = L { cnt: Arc::new((0..3).map(|_| AtomicU64::new(0)).collect()), panics };
     let mut sim = Sim::new();
     sim.reset("listeners", &json!({}), 0, 0);
-    let mut svc = build(name, Inner::new(&sim.w), &l);
+    let mut svc = build(name, Inner::new(&sim.w), &l, early);
     let mut results = vec![];
     for (c, key, out) in [(1usize, 1u32, "ok"), (2, 2, "e1"), (3, 3, "ok"), (4, 1, "ok"), (5, 5, "e1")] {
         svc.ready();
@@ -164,9 +218,10 @@ pub fn run_listeners(out: &mut Vec<String>) -> (usize, usize) {
     for name in LAYERS {
         out.push(json!({"e":"reset","comp":"listeners","cfg":{"layer":name}}).to_string());
         ne += 1;
-        for mask in 0..8u32 {
+        // masks 8..15: the same subsets with the listeners registered before every other option
+        for mask in 0..16u32 {
             let p = [mask & 1 != 0, mask & 2 != 0, mask & 4 != 0];
-            let (cnt, res) = rt.block_on(scenario(name, p));
+            let (cnt, res) = rt.block_on(scenario(name, p, mask & 8 != 0));
             out.push(json!({"e":"lrun","layer":name,"mask":mask,"counts":cnt,"results":res}).to_string());
             ne += 1;
         }
